@@ -76,6 +76,11 @@ void __cxa_throw(void *obj, const void *tinfo, void *dtor)
   __exc = 1; __exc_obj = obj; __exc_type = tinfo;
 }
 void *__builtin_eh_pointer(int region) { (void)region; return __exc_obj; }
+/* guarded initialisation of a function-local static (single thread): the guard's first byte says "initialised" */
+unsigned char __atomic_load_1(const void *p, int order) { (void)order; return *(const unsigned char *)p; }
+int __cxa_guard_acquire(long *g) { return *(unsigned char *)g == 0; }
+void __cxa_guard_release(long *g) { *(unsigned char *)g = 1; }
+void __cxa_guard_abort(long *g) { (void)g; }
 void *__cxa_begin_catch(void *p)
 {
   __CPROVER_assert(__caught_n < 4, "g2c: catch nesting deeper than the model's stack");
